@@ -90,6 +90,8 @@ fn related(r: &mut Rng, a: &DataType) -> DataType {
                 DataType::Boolean(_) => DataType::Boolean(gen_boolean(r)),
                 DataType::Date(_) => DataType::Date(gen_date(r)),
                 DataType::DateTime(_) => DataType::DateTime(gen_datetime(r)),
+                DataType::Enum(_) => DataType::Enum(gen_enum(r)),
+                DataType::Time(_) => DataType::Time(gen_time(r)),
                 _ => gen_datatype(r, 2),
             }
         }
@@ -222,13 +224,43 @@ fn lattice_case(i: u64, p: &Params, rep: &mut Report) {
     }
     let q = struct_qualifier(&a, &b);
     let qr = struct_qualifier(&b, &a);
-    let sub = a.is_subset_of(&b);
-    let sub_ba = b.is_subset_of(&a);
+    let mut subset = |x: &DataType, y: &DataType, rep: &mut Report| -> bool {
+        match guarded(|| x.is_subset_of(y)) {
+            Ok(v) => v,
+            Err(p) => {
+                rep.count("panics_in_is_subset_of");
+                if p.budget {
+                    rep.violation(
+                        "C11|non-termination|a lattice operation exceeded the recursion / work budget".to_string(),
+                        format!("is_subset_of does not return: {}", p.message),
+                        json!({"A": x.to_string(), "B": y.to_string()}),
+                    );
+                }
+                false
+            }
+        }
+    };
+    let sub = subset(&a, &b, rep);
+    let sub_ba = subset(&b, &a, rep);
     if sub {
         rep.count("subset_true");
     }
-    let uni = a.super_union(&b);
-    let int = a.super_intersection(&b);
+    // a panic in one operation (e.g. the union of two enums that give one code two names) must not hide
+    // what the other operations answer on the same pair
+    let uni = match guarded(|| a.super_union(&b)) {
+        Ok(x) => x.map_err(|e| e.to_string()),
+        Err(p) => {
+            rep.count("panics_in_super_union");
+            Err(p.message)
+        }
+    };
+    let int = match guarded(|| a.super_intersection(&b)) {
+        Ok(x) => x.map_err(|e| e.to_string()),
+        Err(p) => {
+            rep.count("panics_in_super_intersection");
+            Err(p.message)
+        }
+    };
     if uni.is_err() {
         rep.count("union_err");
     }
